@@ -90,4 +90,89 @@ pub mod sync {
             self.0.get_mut()
         }
     }
+
+    /// `std::sync::OnceLock`: the value lives in a real `OnceLock` (so `get` can hand out `&T`), every access is a
+    /// scheduling point, and initialisation is serialised by a scheduler-visible lock (blocked initialisers are
+    /// modelled as blocked threads instead of blocking the single OS thread all model threads run on).
+    #[derive(Debug)]
+    pub struct OnceLock<T> {
+        cell: std::sync::OnceLock<T>,
+        init: shuttle::sync::Mutex<()>,
+    }
+    impl<T> Default for OnceLock<T> {
+        fn default() -> Self {
+            Self::new()
+        }
+    }
+    impl<T> OnceLock<T> {
+        pub const fn new() -> Self {
+            OnceLock { cell: std::sync::OnceLock::new(), init: shuttle::sync::Mutex::new(()) }
+        }
+        pub fn get(&self) -> Option<&T> {
+            shuttle::thread::yield_now();
+            self.cell.get()
+        }
+        pub fn get_mut(&mut self) -> Option<&mut T> {
+            self.cell.get_mut()
+        }
+        pub fn set(&self, value: T) -> Result<(), T> {
+            shuttle::thread::yield_now();
+            let _g = self.init.lock().unwrap();
+            self.cell.set(value)
+        }
+        pub fn get_or_init<F: FnOnce() -> T>(&self, f: F) -> &T {
+            shuttle::thread::yield_now();
+            if let Some(v) = self.cell.get() {
+                return v;
+            }
+            let _g = self.init.lock().unwrap();
+            shuttle::thread::yield_now();
+            if self.cell.get().is_none() {
+                let _ = self.cell.set(f());
+            }
+            self.cell.get().unwrap()
+        }
+        pub fn into_inner(self) -> Option<T> {
+            self.cell.into_inner()
+        }
+        pub fn take(&mut self) -> Option<T> {
+            self.cell.take()
+        }
+    }
+    impl<T: Clone> Clone for OnceLock<T> {
+        fn clone(&self) -> Self {
+            let c = OnceLock::new();
+            if let Some(v) = self.cell.get() {
+                let _ = c.cell.set(v.clone());
+            }
+            c
+        }
+    }
+    impl<T> From<T> for OnceLock<T> {
+        fn from(v: T) -> Self {
+            let c = OnceLock::new();
+            let _ = c.cell.set(v);
+            c
+        }
+    }
+
+    /// `std::sync::LazyLock` on top of the OnceLock model.
+    pub struct LazyLock<T, F = fn() -> T> {
+        cell: OnceLock<T>,
+        f: std::sync::Mutex<Option<F>>,
+    }
+    impl<T, F: FnOnce() -> T> LazyLock<T, F> {
+        pub const fn new(f: F) -> Self {
+            LazyLock { cell: OnceLock::new(), f: std::sync::Mutex::new(Some(f)) }
+        }
+        pub fn force(this: &Self) -> &T {
+            this.cell.get_or_init(|| (this.f.lock().unwrap().take().expect("LazyLock initialiser ran twice"))())
+        }
+    }
+    impl<T, F: FnOnce() -> T> std::ops::Deref for LazyLock<T, F> {
+        type Target = T;
+        fn deref(&self) -> &T {
+            LazyLock::force(self)
+        }
+    }
 }
